@@ -9,6 +9,7 @@ import (
 	"runtime"
 	"sort"
 	"strings"
+	"sync"
 	"time"
 
 	"github.com/prometheus/prometheus/promql"
@@ -16,6 +17,7 @@ import (
 
 	"github.com/thanos-community/promql-engine/api"
 	"github.com/thanos-community/promql-engine/engine"
+	"github.com/thanos-community/promql-engine/execution/model"
 
 	"verifharness/run"
 	"verifharness/scn"
@@ -86,7 +88,11 @@ func leaked(base int) (int, string) {
 	return n, w
 }
 
+var gatePoints = []string{"exec.loop", "concurrent.next.recv", "concurrent.pull.send", "concurrent.drain.woken", "coalesce.merge", "worker.work"}
+
 type faultRun struct {
+	points map[string]int64 // how often each scheduling point (hook H2) was passed
+	dur    time.Duration
 	n      int64
 	kinds  []string
 	obs    Obs
@@ -98,7 +104,7 @@ func runFault(sc *scn.Scenario, em func(vt.Ev), mode string, k int64, baseline *
 	sink := &vt.Sink{}
 	series := run.SeriesOf(sc, sc.Data)
 	dist := sc.CfgInt("dist", 0) == 1
-	honour := mode == "cancel" || mode == "block" || mode == "cancelcall"
+	honour := mode == "cancel" || mode == "block" || mode == "cancelcall" || strings.HasPrefix(mode, "gate:")
 	ctx, cancel := context.WithCancel(context.Background())
 	defer cancel()
 	mk := func(ss []vstore.Series, idbase int64) *vstore.Store {
@@ -135,9 +141,30 @@ func runFault(sc *scn.Scenario, em func(vt.Ev), mode string, k int64, baseline *
 	for i, st := range all {
 		snaps[i] = st.Snapshot()
 	}
-	if mode != "none" && mode != "cancelcall" {
+	if mode != "none" && mode != "cancelcall" && !strings.HasPrefix(mode, "gate:") {
 		main.Inj = &vstore.Inject{K: k, Kind: mode, Cancel: cancel}
 	}
+	// scheduling points (hook H2): count them; in mode "gate:<point>" cancel the context when the
+	// k-th pass of <point> is reached and hold that goroutine for a moment, so that the other
+	// goroutines of the query see the cancellation first
+	var pmu sync.Mutex
+	points := map[string]int64{}
+	gate := strings.TrimPrefix(mode, "gate:")
+	gateFired := false
+	model.SetVerifYield(func(p string) {
+		pmu.Lock()
+		points[p]++
+		hit := strings.HasPrefix(mode, "gate:") && p == gate && points[p] == k
+		if hit {
+			gateFired = true
+		}
+		pmu.Unlock()
+		if hit {
+			cancel()
+			time.Sleep(300 * time.Microsecond)
+		}
+	})
+	defer model.SetVerifYield(nil)
 	base := runtime.NumGoroutine()
 	var qst = main
 	if dist {
@@ -156,7 +183,13 @@ func runFault(sc *scn.Scenario, em func(vt.Ev), mode string, k int64, baseline *
 	case "block":
 		go func() { time.Sleep(20 * time.Millisecond); cancel() }()
 	case "cancelcall":
-		go func() { time.Sleep(time.Duration(k) * 15 * time.Microsecond); qry.Cancel() }()
+		// k is the delay in microseconds before Cancel() is called from another goroutine
+		go func() {
+			if k > 0 {
+				time.Sleep(time.Duration(k) * time.Microsecond)
+			}
+			qry.Cancel()
+		}()
 	}
 	var res *promql.Result
 	timedout := false
@@ -166,7 +199,7 @@ func runFault(sc *scn.Scenario, em func(vt.Ev), mode string, k int64, baseline *
 		timedout = true
 	}
 	ms := time.Since(t0).Milliseconds()
-	out := &faultRun{}
+	out := &faultRun{dur: time.Since(t0)}
 	ek, equal := "timeout", false
 	if !timedout {
 		c := run.Canon(res)
@@ -186,6 +219,13 @@ func runFault(sc *scn.Scenario, em func(vt.Ev), mode string, k int64, baseline *
 		sink.Emit(vt.Ev{"ev": "fired", "at": inj.At})
 	} else if mode == "cancelcall" {
 		sink.Emit(vt.Ev{"ev": "fired", "at": "Cancel()"})
+	} else if strings.HasPrefix(mode, "gate:") {
+		pmu.Lock()
+		gf := gateFired
+		pmu.Unlock()
+		if gf {
+			sink.Emit(vt.Ev{"ev": "fired", "at": gate})
+		}
 	}
 	_ = firedNow
 	for _, st := range all {
@@ -210,13 +250,23 @@ func runFault(sc *scn.Scenario, em func(vt.Ev), mode string, k int64, baseline *
 		}
 	}
 	sink.Emit(vt.Ev{"ev": "census", "alive": alive, "where": where, "mutated": mutated})
-	em(vt.Ev{"ev": "run", "mode": mode, "k": k})
+	rmode := mode
+	if strings.HasPrefix(mode, "gate:") {
+		rmode = "cancel" // for the specification a gate is a cancellation at a scheduling point
+	}
+	em(vt.Ev{"ev": "run", "mode": rmode, "k": k})
 	evs := sink.Drain()
 	sort.SliceStable(evs, func(i, j int) bool { return seqOf(evs[i]) < seqOf(evs[j]) })
 	for _, e := range evs {
 		em(e)
 	}
 	em(vt.Ev{"ev": "endrun"})
+	pmu.Lock()
+	out.points = map[string]int64{}
+	for p, n := range points {
+		out.points[p] = n
+	}
+	pmu.Unlock()
 	out.n = main.Callbacks()
 	out.kinds = main.KindsSnapshot()
 	if alive > 0 {
@@ -293,9 +343,29 @@ func famFault(sc *scn.Scenario, em func(vt.Ev)) {
 		modes = append(modes, m.(string))
 	}
 	for _, mode := range modes {
+		if mode == "gate" {
+			// a cancellation at every pass of every scheduling point of the engine (hook H2)
+			for _, p := range gatePoints {
+				n := base.points[p]
+				var ks []int64
+				for k := int64(1); k <= n; k++ {
+					ks = append(ks, k)
+				}
+				if len(ks) > maxK {
+					r.Shuffle(len(ks), func(i, j int) { ks[i], ks[j] = ks[j], ks[i] })
+					ks = append(ks[:maxK-3], 1, 2, n)
+				}
+				for _, k := range ks {
+					runFault(sc, em, "gate:"+p, k, base)
+				}
+			}
+			continue
+		}
 		if mode == "cancelcall" {
-			for i := 0; i < 6; i++ {
-				runFault(sc, em, mode, int64(r.Intn(40)), base)
+			// Cancel() at seeded instants spread over (twice) the duration of the fault-free run
+			span := 2*base.dur.Microseconds() + 50
+			for i := 0; i < sc.CfgInt("cancelcalls", 40); i++ {
+				runFault(sc, em, mode, r.Int63n(span), base)
 			}
 			continue
 		}
